@@ -130,6 +130,11 @@ Theorem search_wave_complete : forall (polygon : colfun (list pt)) (nbrs : colfu
   exists e, search polygon nbrs bbox t pos = Some e /\ contains_point polygon e pos = true.
 Proof. exact search_complete_l. Qed.
 Print Assumptions search_wave_complete.
+Theorem quadtree_search_returns_tree_element : forall (polygon : colfun (list pt)) (centre : colfun pt)
+    (nbrs : colfun (list positive)) (bbox : colfun rect) fuel b es pos e,
+  search polygon nbrs bbox (build centre fuel b es) pos = Some e -> In e es.
+Proof. exact search_in_elements. Qed.
+Print Assumptions quadtree_search_returns_tree_element.
 (** agreement of the search aids, under the explicit hypotheses [tiling] (at most one column
     contains the point) and [connected_near] (the containing column is reachable from the
     elements of the quadtree leaf through neighbours whose bounding boxes meet the leaf), and
